@@ -187,11 +187,15 @@ impl<'a> Ctx<'a> {
             // last sentence of C11: what the builder serialises (here through write_into into a buffer that held
             // something else) is accepted by the parser, exposes the builder's attributes, and its integrity validates
             {
-                let mut v = vec![0xa5u8; len];
+                // (the destination is exact for one node and roomier for the next: the message is what the returned
+                //  length delimits)
+                let room = if self.nodes % 2 == 0 { 0 } else { 1 + (self.nodes % 13) as usize };
+                let mut v = vec![0xa5u8; len + room];
                 let wrote = nb.write_into(&mut v);
                 let verdict: Result<(), String> = match wrote {
-                    Err(e) => Err(format!("write_into(exact) failed: {e:?}")),
-                    Ok(_) => match Message::from_bytes(&v) {
+                    Err(e) => Err(format!("write_into(len + {room}) failed: {e:?}")),
+                    Ok(n) if n > v.len() => Err(format!("write_into(len + {room}) says it wrote {n} bytes")),
+                    Ok(n) => match Message::from_bytes(&v[..n]) {
                         Err(e) => Err(format!("the parser rejects the serialised message: {e:?}")),
                         Ok(m) => {
                             let got: Vec<u16> = m.iter_attributes().map(|a| a.get_type().value()).collect();
@@ -229,7 +233,8 @@ pub fn main_builder(args: &[String]) {
     let lts = load(&args[0]);
     let mut out = std::io::BufWriter::new(std::fs::File::create(&args[1]).expect("out"));
     let maxdepth: usize = args[2].parse().unwrap();
-    let reduced = args.get(3).map(|s| s == "reduced").unwrap_or(false);
+    let alpha = args.get(3).map(|s| s.as_str()).unwrap_or("full");
+    let reduced = alpha != "full";
     // concrete attributes from the kind table of the specification
     let mut values: HashMap<String, (u16, Vec<u8>)> = HashMap::new();
     for (k, v) in lts.kinds.as_object().unwrap() {
@@ -241,6 +246,7 @@ pub fn main_builder(args: &[String]) {
         let a: Box<dyn AttributeWrite> = match *t {
             0x8022 => Box::new(Software::from_raw(&raw).unwrap()),
             0x0024 => Box::new(Priority::from_raw(&raw).unwrap()),
+            0x802a => Box::new(IceControlling::from_raw(&raw).unwrap()),
             0x0006 => Box::new(Username::from_raw(&raw).unwrap()),
             0x0008 => Box::new(MessageIntegrity::from_raw(&raw).unwrap()),
             0x001c => Box::new(MessageIntegritySha256::from_raw(&raw).unwrap()),
@@ -250,7 +256,11 @@ pub fn main_builder(args: &[String]) {
         typed.insert(k.clone(), a);
     }
     let mut ops: Vec<(String, String)> = vec![];
-    let ord: Vec<&str> = if reduced { vec!["A", "R", "Z"] } else { vec!["A", "B", "R", "U", "Z"] };
+    let ord: Vec<&str> = match alpha {
+        "reduced" => vec!["A", "R", "Z"],
+        "reduced2" => vec!["B", "U"],
+        _ => vec!["A", "B", "R", "U", "Z"],
+    };
     for k in &ord {
         ops.push(("add_attribute".into(), k.to_string()));
         ops.push(("add_raw_attribute".into(), k.to_string()));
